@@ -1893,6 +1893,11 @@ class H2Connection:
         transition the state of the stream, so we need to pass it to the
         appropriate stream.
         """
+        if self.state_machine.state == ConnectionState.CLOSED:
+            # Nothing but GOAWAY may be sent any more: do not turn this into a
+            # stream error below.
+            raise ProtocolError("Received CONTINUATION on a closed connection")
+
         stream = self._get_stream_by_id(frame.stream_id)
         stream.receive_continuation()
         assert False, "Should not be reachable"
